@@ -665,32 +665,67 @@ theorem copyElems_pres (E : CopyEnv) (ety e : Ty) (ses : List AS)
 
 /-! ### multimaps -/
 
-theorem copyKV_cases (E : CopyEnv) (isPrim : Bool) (bit : Nat) (d s : AS) (mask : Nat) (cp : AS → AS × Up) :
-    copyKV E isPrim bit d s mask cp = (d, mask, .no) ∨
-    (∃ x y, d = .prim y ∧ copyKV E isPrim bit d s mask cp = (.prim x, (trackerRecv mask bit .direct).1, (trackerRecv mask bit .direct).2)) ∨
-    copyKV E isPrim bit d s mask cp = ((cp d).1, (trackerRecv mask bit (cp d).2).1, (trackerRecv mask bit (cp d).2).2) := by
+theorem trackerRecv_direct' (k bit : Nat) : trackerRecv k bit .direct = trackerMark k bit := rfl
+
+/-- `SetKey` / `SetValue` of a dictionary-struct member: nothing happens, or the member is replaced by a
+    value that is sound whenever the old one was, and its tracker bit is marked -/
+theorem setDictElem_cases (C : Ctx) (unshare : Ty → AS → AS × Up) (cp : AS → AS × Up) (ty : Ty) (bit : Nat) (d s : AS)
+    (mask : Nat) (hun : ∀ sh, C.canBeShared sh = true → Pres C sh (unshare ty sh).1 (unshare ty sh).2)
+    (hcp : ∀ x, Pres C x (cp x).1 (cp x).2) :
+    setDictElem C unshare cp ty bit d s mask = (d, mask, .no) ∨
+    ∃ a', (∀ ℓ R, SndG C ℓ d R → SndG C ℓ a' R) ∧
+      setDictElem C unshare cp ty bit d s mask = (a', (trackerMark mask bit).1, (trackerMark mask bit).2) := by
+  unfold setDictElem
+  by_cases hss : C.canBeShared s = true
+  · simp only [hss, if_true]
+    split
+    · right; exact ⟨s, fun ℓ R _ => anySnd_shared C s hss ℓ R, rfl⟩
+    · left; rfl
+  · simp only [hss, Bool.false_eq_true, if_false]
+    split
+    · right
+      by_cases hds : C.canBeShared d = true
+      · simp only [hds, if_true]
+        exact ⟨_, fun ℓ R h => (hcp _).snd ℓ R ((hun d hds).snd ℓ R h), rfl⟩
+      · simp only [hds, Bool.false_eq_true, if_false]
+        exact ⟨_, fun ℓ R h => (hcp _).snd ℓ R h, rfl⟩
+    · left; rfl
+
+theorem copyKV_cases (E : CopyEnv) (hun : UnshareOk E) (ty : Ty) (bit : Nat) (d s : AS) (mask : Nat) (cp : AS → AS × Up)
+    (hcp : ∀ x, Pres E.C x (cp x).1 (cp x).2) :
+    copyKV E ty bit d s mask cp = (d, mask, .no) ∨
+    (∃ a', (∀ ℓ R, SndG E.C ℓ d R → SndG E.C ℓ a' R) ∧
+      copyKV E ty bit d s mask cp = (a', (trackerRecv mask bit .direct).1, (trackerRecv mask bit .direct).2)) ∨
+    copyKV E ty bit d s mask cp = ((cp d).1, (trackerRecv mask bit (cp d).2).1, (trackerRecv mask bit (cp d).2).2) := by
   unfold copyKV
-  by_cases hp : isPrim = true
+  by_cases hp : isPrimTy ty = true
   · simp only [hp, if_true]
     split
     · rename_i x y
       split
-      · right; left; exact ⟨x, y, rfl, rfl⟩
+      · right; left; exact ⟨.prim x, fun ℓ R _ => anySnd_prim E.C x ℓ R, rfl⟩
       · left; rfl
     · left; rfl
   · simp only [hp, Bool.false_eq_true, if_false]
-    split
-    · right; right; rfl
-    · left; rfl
+    by_cases hd : E.C.isDictTy ty = true
+    · simp only [hd, if_true]
+      rcases setDictElem_cases E.C E.unshare cp ty bit d s mask
+        (fun sh hsh => hun ty sh (isPtrTy_of_isDictTy E.C ty hd) hsh) hcp with h | ⟨a', ha, h⟩
+      · left; exact h
+      · right; left; exact ⟨a', ha, h⟩
+    · simp only [hd, Bool.false_eq_true, if_false]
+      split
+      · right; right; rfl
+      · left; rfl
 
-theorem copyPairs_pres (E : CopyEnv) (kPrim vPrim : Bool) :
+theorem copyPairs_pres (E : CopyEnv) (hun : UnshareOk E) (kt vt : Ty) :
     ∀ (sps : List (AS × AS)), (∀ s ∈ sps, (∀ x, Pres E.C x (copy0 E x s.1).1 (copy0 E x s.1).2) ∧
       (∀ x, Pres E.C x (copy0 E x s.2).1 (copy0 E x s.2).2)) →
     ∀ (dps pre hid : List (AS × AS)) (i k v : Nat) (ml : Bool) (n : String), i = pre.length →
     Pres E.C (.mmap n (pre ++ dps) hid k v ml)
-      (.mmap n (pre ++ (copyPairs E kPrim vPrim i dps sps k v).1) hid (copyPairs E kPrim vPrim i dps sps k v).2.1
-        (copyPairs E kPrim vPrim i dps sps k v).2.2.1 ml)
-      (copyPairs E kPrim vPrim i dps sps k v).2.2.2
+      (.mmap n (pre ++ (copyPairs E kt vt i dps sps k v).1) hid (copyPairs E kt vt i dps sps k v).2.1
+        (copyPairs E kt vt i dps sps k v).2.2.1 ml)
+      (copyPairs E kt vt i dps sps k v).2.2.2
   | [], _, dps, pre, hid, i, k, v, ml, n, _ => by simp only [copyPairs]; exact Pres.refl _ _ _
   | (sk, sv) :: sps, ih, [], pre, hid, i, k, v, ml, n, _ => by simp only [copyPairs]; exact Pres.refl _ _ _
   | (sk, sv) :: sps, ih, (dk, dv) :: ds, pre, hid, i, k, v, ml, n, hi => by
@@ -698,37 +733,41 @@ theorem copyPairs_pres (E : CopyEnv) (kPrim vPrim : Bool) :
     have hget : (pre ++ (dk, dv) :: ds)[i]? = some (dk, dv) := by rw [hi]; simp
     -- the key
     have hkey : Pres E.C (.mmap n (pre ++ (dk, dv) :: ds) hid k v ml)
-        (.mmap n (pre ++ ((copyKV E kPrim (maskForIndex i) dk sk k (fun x => copy0 E x sk)).1, dv) :: ds) hid
-          (copyKV E kPrim (maskForIndex i) dk sk k (fun x => copy0 E x sk)).2.1 v ml)
-        (copyKV E kPrim (maskForIndex i) dk sk k (fun x => copy0 E x sk)).2.2 := by
-      rcases copyKV_cases E kPrim (maskForIndex i) dk sk k (fun x => copy0 E x sk) with h | ⟨x, y, rfl, h⟩ | h
+        (.mmap n (pre ++ ((copyKV E kt (maskForIndex i) dk sk k (fun x => copy0 E x sk)).1, dv) :: ds) hid
+          (copyKV E kt (maskForIndex i) dk sk k (fun x => copy0 E x sk)).2.1 v ml)
+        (copyKV E kt (maskForIndex i) dk sk k (fun x => copy0 E x sk)).2.2 := by
+      rcases copyKV_cases E hun kt (maskForIndex i) dk sk k (fun x => copy0 E x sk) (fun x => (ih (sk, sv) (by simp)).1 x)
+        with h | ⟨a', ha, h⟩ | h
       · rw [h]; exact Pres.refl _ _ _
       · rw [h]
-        have := pres_key E.C n (pre ++ (.prim y, dv) :: ds) hid k v ml i (.prim y) dv (.prim x) .direct hget (pres_prim_direct E.C y x)
+        have := pres_key E.C n (pre ++ (dk, dv) :: ds) hid k v ml i dk dv a' .direct hget ha (fun _ h => by simp at h)
         simpa [hi] using this
       · rw [h]
-        have := pres_key E.C n (pre ++ (dk, dv) :: ds) hid k v ml i dk dv _ _ hget ((ih (sk, sv) (by simp)).1 dk)
+        have := pres_key E.C n (pre ++ (dk, dv) :: ds) hid k v ml i dk dv _ _ hget ((ih (sk, sv) (by simp)).1 dk).snd
+          ((ih (sk, sv) (by simp)).1 dk).sync
         simpa [hi] using this
     -- the value
     have hget2 : ∀ dk', (pre ++ (dk', dv) :: ds)[i]? = some (dk', dv) := by intro dk'; rw [hi]; simp
     have hval : ∀ dk' k', Pres E.C (.mmap n (pre ++ (dk', dv) :: ds) hid k' v ml)
-        (.mmap n (pre ++ (dk', (copyKV E vPrim (maskForIndex i) dv sv v (fun x => copy0 E x sv)).1) :: ds) hid k'
-          (copyKV E vPrim (maskForIndex i) dv sv v (fun x => copy0 E x sv)).2.1 ml)
-        (copyKV E vPrim (maskForIndex i) dv sv v (fun x => copy0 E x sv)).2.2 := by
+        (.mmap n (pre ++ (dk', (copyKV E vt (maskForIndex i) dv sv v (fun x => copy0 E x sv)).1) :: ds) hid k'
+          (copyKV E vt (maskForIndex i) dv sv v (fun x => copy0 E x sv)).2.1 ml)
+        (copyKV E vt (maskForIndex i) dv sv v (fun x => copy0 E x sv)).2.2 := by
       intro dk' k'
-      rcases copyKV_cases E vPrim (maskForIndex i) dv sv v (fun x => copy0 E x sv) with h | ⟨x, y, rfl, h⟩ | h
+      rcases copyKV_cases E hun vt (maskForIndex i) dv sv v (fun x => copy0 E x sv) (fun x => (ih (sk, sv) (by simp)).2 x)
+        with h | ⟨b', hb, h⟩ | h
       · rw [h]; exact Pres.refl _ _ _
       · rw [h]
-        have := pres_val E.C n (pre ++ (dk', .prim y) :: ds) hid k' v ml i dk' (.prim y) (.prim x) .direct (hget2 dk') (pres_prim_direct E.C y x)
+        have := pres_val E.C n (pre ++ (dk', dv) :: ds) hid k' v ml i dk' dv b' .direct (hget2 dk') hb (fun _ h => by simp at h)
         simpa [hi] using this
       · rw [h]
-        have := pres_val E.C n (pre ++ (dk', dv) :: ds) hid k' v ml i dk' dv _ _ (hget2 dk') ((ih (sk, sv) (by simp)).2 dv)
+        have := pres_val E.C n (pre ++ (dk', dv) :: ds) hid k' v ml i dk' dv _ _ (hget2 dk') ((ih (sk, sv) (by simp)).2 dv).snd
+          ((ih (sk, sv) (by simp)).2 dv).sync
         simpa [hi] using this
-    have hrest := copyPairs_pres E kPrim vPrim sps (fun s hs => ih s (by simp [hs])) ds
-      (pre ++ [((copyKV E kPrim (maskForIndex i) dk sk k (fun x => copy0 E x sk)).1,
-                (copyKV E vPrim (maskForIndex i) dv sv v (fun x => copy0 E x sv)).1)]) hid (i + 1)
-      (copyKV E kPrim (maskForIndex i) dk sk k (fun x => copy0 E x sk)).2.1
-      (copyKV E vPrim (maskForIndex i) dv sv v (fun x => copy0 E x sv)).2.1 ml n (by simp [hi])
+    have hrest := copyPairs_pres E hun kt vt sps (fun s hs => ih s (by simp [hs])) ds
+      (pre ++ [((copyKV E kt (maskForIndex i) dk sk k (fun x => copy0 E x sk)).1,
+                (copyKV E vt (maskForIndex i) dv sv v (fun x => copy0 E x sv)).1)]) hid (i + 1)
+      (copyKV E kt (maskForIndex i) dk sk k (fun x => copy0 E x sk)).2.1
+      (copyKV E vt (maskForIndex i) dv sv v (fun x => copy0 E x sv)).2.1 ml n (by simp [hi])
     have hrest' := hrest
     simp only [List.append_assoc, List.singleton_append] at hrest'
     have h3 := Pres.trans _ _ _ _ _ _ (Pres.trans _ _ _ _ _ _ hkey (hval _ _)) hrest'
@@ -817,11 +856,11 @@ theorem copy0_pres (E : CopyEnv) (hun : UnshareOk E) :
           | (a, b), hs => ⟨fun x => copy0_pres E hun a x, fun x => copy0_pres E hun b x⟩
       by_cases hl : dps.length = sps.length
       · simp only [hl, ne_eq, not_true_eq_false, if_false]
-        have h2 := copyPairs_pres E (isPrimTy (mmapTys E.C n).1) (isPrimTy (mmapTys E.C n).2) sps ih dps [] dhid 0 k v ml n rfl
+        have h2 := copyPairs_pres E hun (mmapTys E.C n).1 (mmapTys E.C n).2 sps ih dps [] dhid 0 k v ml n rfl
         simpa [join_no_left] using h2
       · simp only [hl, ne_eq, not_false_eq_true, if_true]
         have h1 := mmEnsureLen_pres E.C n dps dhid k v ml sps.length
-        have h2 := copyPairs_pres E (isPrimTy (mmapTys E.C n).1) (isPrimTy (mmapTys E.C n).2) sps ih
+        have h2 := copyPairs_pres E hun (mmapTys E.C n).1 (mmapTys E.C n).2 sps ih
           (mmEnsureLen E.C n dps dhid k v ml sps.length).1 [] (mmEnsureLen E.C n dps dhid k v ml sps.length).2.1 0
           (mmEnsureLen E.C n dps dhid k v ml sps.length).2.2.1 (mmEnsureLen E.C n dps dhid k v ml sps.length).2.2.2.1
           (mmEnsureLen E.C n dps dhid k v ml sps.length).2.2.2.2.1 n rfl
@@ -964,6 +1003,58 @@ theorem setObj_pres (C : Ctx) (i : Nat) (v : AS) (w w' : AS) (u : Up) (hnd : C.i
               refine pres_struct_mark' C n m p _ fr fs i cur _ hfs hns hpb (fun huc => ?_)
               exact anySnd_dict C _ (by simpa using hdict) ((copy_pres C cur v).snd true none huc)
     · simp at h
+  | _ => simp [applyOp] at h
+
+/-! ## SetKey(i, k) / SetValue(i, v) of a dictionary-struct key / value of a multimap -/
+
+theorem setKeyObj_pres (C : Ctx) (i : Nat) (src : AS) (w w' : AS) (u : Up)
+    (h : applyOp C (.setKeyObj i src) w = .ok (w', u)) : Pres C w w' u := by
+  cases w with
+  | mmap n ps hid k v ml =>
+    simp only [applyOp] at h
+    split at h
+    · simp at h
+    · rename_i hdty
+      have hdty : C.isDictTy (mmapTys C n).1 = true := by simpa using hdty
+      split at h
+      · rename_i a b hc
+        simp only [Except.ok.injEq, Prod.mk.injEq, setNth] at h
+        obtain ⟨rfl, rfl⟩ := h
+        rcases setDictElem_cases C C.unshare (fun x => C.copy x src) (mmapTys C n).1 (maskForIndex i) a src k
+          (fun sh hsh => unshare_pres C C.copy (copy_pres C) _ sh (isPtrTy_of_isDictTy C _ hdty) hsh)
+          (fun x => copy_pres C x src) with e | ⟨a', ha, e⟩
+        · rw [e]
+          simp only [set_self ps i (a, b) hc]
+          exact Pres.refl C _ _
+        · rw [e]
+          have := pres_key C n ps hid k v ml i a b a' .direct hc ha (fun _ h => by simp at h)
+          simpa [trackerRecv_direct] using this
+      · simp at h
+  | _ => simp [applyOp] at h
+
+theorem setValueObj_pres (C : Ctx) (i : Nat) (src : AS) (w w' : AS) (u : Up)
+    (h : applyOp C (.setValueObj i src) w = .ok (w', u)) : Pres C w w' u := by
+  cases w with
+  | mmap n ps hid k v ml =>
+    simp only [applyOp] at h
+    split at h
+    · simp at h
+    · rename_i hdty
+      have hdty : C.isDictTy (mmapTys C n).2 = true := by simpa using hdty
+      split at h
+      · rename_i a b hc
+        simp only [Except.ok.injEq, Prod.mk.injEq, setNth] at h
+        obtain ⟨rfl, rfl⟩ := h
+        rcases setDictElem_cases C C.unshare (fun x => C.copy x src) (mmapTys C n).2 (maskForIndex i) b src v
+          (fun sh hsh => unshare_pres C C.copy (copy_pres C) _ sh (isPtrTy_of_isDictTy C _ hdty) hsh)
+          (fun x => copy_pres C x src) with e | ⟨b', hb, e⟩
+        · rw [e]
+          simp only [set_self ps i (a, b) hc]
+          exact Pres.refl C _ _
+        · rw [e]
+          have := pres_val C n ps hid k v ml i a b b' .direct hc hb (fun _ h => by simp at h)
+          simpa [trackerRecv_direct] using this
+      · simp at h
   | _ => simp [applyOp] at h
 
 end Stef.Api
